@@ -113,8 +113,10 @@ def _block(stmts, fn_counts):
     while i < len(stmts):
         s = stmts[i]
         # 2. x = x +/- e
-        if isinstance(s, ast.Assign) and len(s.targets) == 1 and isinstance(s.targets[0], ast.Name) and isinstance(s.value, ast.BinOp) \
-                and isinstance(s.value.op, (ast.Add, ast.Sub)) and isinstance(s.value.left, ast.Name) and s.value.left.id == s.targets[0].id:
+        if isinstance(s, ast.Assign) and len(s.targets) == 1 and isinstance(s.targets[0], (ast.Name, ast.Attribute)) and isinstance(s.value, ast.BinOp) \
+                and isinstance(s.value.op, (ast.Add, ast.Sub)) and isinstance(s.value.left, (ast.Name, ast.Attribute)) \
+                and ast.unparse(s.value.left) == ast.unparse(s.targets[0]) and all(isinstance(x, (ast.Name, ast.Attribute, ast.Load, ast.Store))
+                                                                                   for x in ast.walk(s.targets[0])):
             s = ast.copy_location(ast.AugAssign(target=s.targets[0], op=s.value.op, value=s.value.right), s)
         # 6. `x = [E for T in I if C]` on a plain local is the explicit loop
         if isinstance(s, ast.Assign) and len(s.targets) == 1 and isinstance(s.targets[0], ast.Name) and isinstance(s.value, ast.ListComp) \
